@@ -103,3 +103,125 @@ Theorem C08_handler_error_returned_and_permanent :
     (forall s', rerror s' = Some e -> forall ops, exists rs s'', run_ops inflate c s' ops = (rs, s'') /\ frozen s' s'' /\ Forall is_failure rs).
 Proof. exact handler_error_is_returned_and_permanent. Qed.
 Print Assumptions C08_handler_error_returned_and_permanent.
+
+(* ============================================================================================ *)
+(* Streams with permessage-deflate messages (reader negotiated compression).  [conformant_framesZ]
+   lets data AND control frames carry RSV1 when negotiated; a ReadMessage returns
+   [out_ofZ inflate m]: the inflated payload (or the flate error) for a message whose first frame
+   has RSV1, the payload itself otherwise.  Proofs are in Proofs/CtlZ.v (and ReaderFlateP.v for
+   the pong replies).                                                                           *)
+(* ============================================================================================ *)
+Require Import WS.Proofs.ReaderZ1 WS.Proofs.ReaderZ3 WS.Proofs.ReaderFlateP WS.Proofs.CtlZ.
+
+Theorem C08Z_handlers_see_each_frame_once_in_order :
+  forall inflate c b fs extra,
+    custom_handlers c = true -> handler_fail c = [] -> binv b -> (125 <= bsize b)%nat ->
+    conformant_framesZ c fs -> pending b = encode_frames fs ++ extra ->
+    (trailer fs = [] -> extra = [] -> fault (src b) = EEOF) ->
+    let ms := data_msgs (events_of fs) in
+    exists s', run_ops inflate c (init_rst b) (repeat OReadMessage (length ms)) = (map (out_ofZ inflate) ms, s') /\
+      hlog s' = stamps 0 (body fs) /\
+      map hev_payload (hlog s') = map ctl_payload (filter isctl (body fs)) /\
+      hcount s' = length (hlog s') /\ wlog s' = [] /\ closesent s' = false /\ outoffuel s' = false /\
+      pending (br s') = encode_frames (trailer fs) ++ extra /\ opidx s' = length ms.
+Proof. exact handler_log_in_wire_orderZ. Qed.
+Print Assumptions C08Z_handlers_see_each_frame_once_in_order.
+
+Theorem C08Z_order_relative_to_data :
+  forall inflate c b fs extra l1 g l2,
+    custom_handlers c = true -> handler_fail c = [] -> binv b -> (125 <= bsize b)%nat ->
+    conformant_framesZ c fs -> pending b = encode_frames fs ++ extra ->
+    (trailer fs = [] -> extra = [] -> fault (src b) = EEOF) ->
+    body fs = l1 ++ g :: l2 -> isctl g = true ->
+    exists s', run_ops inflate c (init_rst b) (repeat OReadMessage (length (data_msgs (events_of fs)))) =
+        (map (out_ofZ inflate) (data_msgs (events_of fs)), s') /\
+      hlog s' = stamps 0 l1 ++ hev_of (nfin l1) g :: stamps (nfin l1) l2.
+Proof. exact handler_sees_frame_during_its_messageZ. Qed.
+Print Assumptions C08Z_order_relative_to_data.
+
+(* default handlers: each ping answered by a pong with the identical payload, also between the
+   fragments of a compressed message *)
+Theorem C08Z_pings_answered :
+  forall inflate c b fs extra,
+    custom_handlers c = false -> binv b -> (125 <= bsize b)%nat ->
+    conformant_framesZ c fs -> pending b = encode_frames fs ++ extra -> extra <> [] ->
+    let ms := data_msgs (events_of fs) in
+    exists s',
+      run_ops inflate c (init_rst b) (repeat OReadMessage (length ms)) = (map (out_ofZ inflate) ms, s') /\
+      outoffuel s' = false /\ rerror s' = None /\ closesent s' = false /\
+      rem s' = 0 /\ rfin s' = true /\
+      wlog s' = map WPong (pings_of (body fs)) /\
+      pending (br s') = encode_frames (trailer fs) ++ extra.
+Proof. exact read_messages_conformantZ. Qed.
+Print Assumptions C08Z_pings_answered.
+
+(* default handlers: a close frame (possibly carrying RSV1 itself) after compressed messages is
+   echoed with the same code and reported, permanently; nothing after it is read *)
+Theorem C08Z_close_echoed_and_reported :
+  forall inflate c b fs cf anything,
+    custom_handlers c = false -> binv b -> (125 <= bsize b)%nat ->
+    conformant_framesZ c fs -> valid_closeZ c cf ->
+    pending b = encode_frames fs ++ encode_frame cf ++ anything ->
+    let ms := data_msgs (events_of fs) in
+    let code := close_code (payload cf) in let text := close_text (payload cf) in
+    exists s', run_ops inflate c (init_rst b) (repeat OReadMessage (S (length ms))) =
+        (map (out_ofZ inflate) ms ++ [RMsg 0 [] (Some (RClose code text))], s') /\
+      rerror s' = Some (RClose code text) /\
+      wlog s' = map WPong (pings_of fs) ++ [WCloseEcho (format_close code)] /\
+      closesent s' = true /\ hlog s' = [] /\ outoffuel s' = false /\ pending (br s') = anything /\
+      (forall ops, exists rs s'', run_ops inflate c s' ops = (rs, s'') /\ Forall is_failure rs /\
+         br s'' = br s' /\ hlog s'' = hlog s' /\ wlog s'' = wlog s' /\ rerror s'' = Some (RClose code text)).
+Proof. exact read_messages_with_closeZ. Qed.
+Print Assumptions C08Z_close_echoed_and_reported.
+
+(* recording handlers and a close frame: the close handler gets code and reason once, last *)
+Theorem C08Z_close_handler_sees_code_and_reason :
+  forall inflate c b fs cf anything,
+    custom_handlers c = true -> handler_fail c = [] -> binv b -> (125 <= bsize b)%nat ->
+    conformant_framesZ c fs -> valid_closeZ c cf ->
+    pending b = encode_frames fs ++ encode_frame cf ++ anything ->
+    let ms := data_msgs (events_of fs) in
+    let code := close_code (payload cf) in let text := close_text (payload cf) in
+    exists s', run_ops inflate c (init_rst b) (repeat OReadMessage (S (length ms))) =
+        (map (out_ofZ inflate) ms ++ [RMsg 0 [] (Some (RClose code text))], s') /\
+      rerror s' = Some (RClose code text) /\
+      hlog s' = stamps 0 fs ++ [HClose (length ms) code text] /\ hcount s' = length (hlog s') /\
+      wlog s' = [] /\ closesent s' = false /\ outoffuel s' = false /\ pending (br s') = anything /\
+      (forall ops, exists rs s'', run_ops inflate c s' ops = (rs, s'') /\ Forall is_failure rs /\
+         br s'' = br s' /\ hlog s'' = hlog s' /\ wlog s'' = wlog s' /\ rerror s'' = Some (RClose code text)).
+Proof. exact handler_log_with_closeZ. Qed.
+Print Assumptions C08Z_close_handler_sees_code_and_reason.
+
+(* one ReadMessage over a message that may be compressed and need not end within the frames
+   considered: either it completes (res = None) or the frame [tail] starts with makes
+   advanceFrame fail while the message is open; the handler log / pong replies are exactly the
+   effects of the control frames met, in wire order ([effs]) *)
+Theorem C08Z_read_message_gen :
+  forall k c tail e (Post : rst -> rst -> Prop),
+    (custom_handlers c = true -> handler_fail c = []) -> tail <> [] \/ k = EEOF -> is_io_eof e = false ->
+  forall inflate fs s p f r,
+    rinv k s -> rem s = 0 -> rfin s = true -> pending (br s) = encode_frames fs ++ tail ->
+    Forall wf_frame fs -> acc_seqZ (server c) (negotiated c) false fs = true ->
+    blen (encode_frames fs) < 2^63 -> find_data fs = Some (p, f, r) ->
+    (closes (fin f) r = false -> open_fail k c tail e Post) ->
+    exists res s',
+      read_message inflate c s =
+        (msg_outZ inflate (opcode f) (rsv f =? 4) (payload f ++ tail_data (fin f) r) res, s') /\
+      ra_post k c tail e Post (fin f) (opidx s) (effs c (opidx s) (L s) (lead fs)) r res s'.
+Proof. exact read_message_genZ. Qed.
+Print Assumptions C08Z_read_message_gen.
+
+(* an error returned by a handler (the control frame may carry RSV1) is returned and permanent *)
+Theorem C08Z_handler_error_returned_and_permanent :
+  forall inflate k c s f rest,
+    rinv k s -> custom_handlers c = true -> wf_frame f -> ctl_okZ (negotiated c) (server c) f ->
+    (opcode f = 8 -> close_body_bad (payload f) = false) -> rem s = 0 ->
+    pending (br s) = encode_frame f ++ rest -> In (hcount s) (handler_fail c) ->
+    let e := RHandler (N.of_nat (hcount s)) in
+    let logged s' := rerror s' = Some e /\ hlog s' = hlog s ++ [hev_of (opidx s) f] /\ wlog s' = wlog s /\ pending (br s') = rest in
+    (exists s', next_reader c s = (RNext 0 (Some e), s') /\ logged s') /\
+    (exists s', read_message inflate c s = (RMsg 0 [] (Some e), s') /\ logged s') /\
+    (rfin s = false -> forall m, exists s', reader_read c m s = ([], Some e, s') /\ logged s') /\
+    (forall s', rerror s' = Some e -> forall ops, exists rs s'', run_ops inflate c s' ops = (rs, s'') /\ frozen s' s'' /\ Forall is_failure rs).
+Proof. exact handler_error_is_returned_and_permanentZ. Qed.
+Print Assumptions C08Z_handler_error_returned_and_permanent.
